@@ -13,7 +13,7 @@ Record sendp_st := { sd_queue_count : Z -> Z; sd_queue_byte_size : Z -> Z }.
 Inductive sendp_fx :=
 | FxSetCurrent
 | FxClearCurrent
-| FxOutPut.
+| FxOutPut (count_of_flow : Z) (bytes_of_flow : Z).
 Inductive sendp_req :=
 | RqTimeout (d : Q).
 Inductive sendp_exn :=
@@ -34,10 +34,10 @@ Definition gen_Scheduler_send_packet_from_0 (s : sendp_st) (size : Z) (flow : Z)
 (* Scheduler.send_packet, program point 1: resumed after line 69: `yield self.env.timeout(packet.size * 8.0 / self.rate)`; objects bound: packet *)
 Definition gen_Scheduler_send_packet_from_1 (s : sendp_st) (size : Z) (flow : Z) (rate : Q) (out_set : bool)
   : sendp_st * list sendp_fx * sendp_next :=
-  let queue_count1 := (gen_upd (sd_queue_count s) flow (((sd_queue_count s) flow) - (1)%Z)%Z) in
   let queue_byte_size1 := (gen_upd (sd_queue_byte_size s) flow (((sd_queue_byte_size s) flow) - size)%Z) in
+  let queue_count1 := (gen_upd (sd_queue_count s) flow (((sd_queue_count s) flow) - (1)%Z)%Z) in
   let fx1 :=
     (if out_set
-     then [FxOutPut]
+     then [(FxOutPut (queue_count1 flow) (queue_byte_size1 flow))]
      else []) in
   ({| sd_queue_count := queue_count1; sd_queue_byte_size := queue_byte_size1 |}, (fx1 ++ [FxClearCurrent]), NxExit).
